@@ -1,12 +1,131 @@
 (* C11 — connection sets form a correct, canonical set algebra over protocol x port.
-   Statements only; proofs are in Proofs/ConnSetProofs.v. *)
+   Statements only; proofs are in Proofs/ConnSetProofs.v (model: Model/ConnSet.v, the
+   operation-by-operation mirror of connectionset.go / portset.go).
+   [cs_denote c p n] is membership of the numeric point (p, n), 1 <= n <= 65535.
+   [cs_wf]   : stored port sets are canonical interval lists within 1..65535.
+   [cs_ninv] : the canonical-form invariant of name-free sets (what every set reachable through
+               MakeConnectionSet / Union / Intersection / Subtract satisfies). *)
 From Coq Require Import List ZArith Bool String.
 From NP Require Import IntervalSet ConnSet ConnSetProofs FactsPorts SrcFacts.
 Import ListNotations.
 Open Scope Z_scope.
 
+(* the model's constants are the constants found in /repo on this run *)
 Theorem C11_src_constants :
   fact_ok src_minPort minPort /\ fact_ok src_maxPort maxPort /\ fact_ok src_NoPort NoPort /\
   fact_ok src_allConnsStr allConnsStr /\ fact_ok src_noConnsStr noConnsStr.
 Proof. exact ports_facts_ok. Qed.
 Print Assumptions C11_src_constants.
+
+(* results denote exactly the right set *)
+Theorem C11_union_denote c o p n :
+  cs_wf c -> cs_wf o -> cs_denote (cs_union c o) p n = cs_denote c p n || cs_denote o p n.
+Proof. exact (cs_union_denote c o p n). Qed.
+Print Assumptions C11_union_denote.
+
+Theorem C11_intersection_denote c o p n :
+  cs_wf c -> cs_wf o -> (cs_all c = true -> forall q, cs_get c q = None) ->
+  cs_denote (cs_inter c o) p n = cs_denote c p n && cs_denote o p n.
+Proof. exact (cs_inter_denote c o p n). Qed.
+Print Assumptions C11_intersection_denote.
+
+Theorem C11_subtract_denote c o p n :
+  cs_wf c -> cs_wf o -> cs_denote (cs_subtract c o) p n = cs_denote c p n && negb (cs_denote o p n).
+Proof. exact (cs_subtract_denote c o p n). Qed.
+Print Assumptions C11_subtract_denote.
+
+Theorem C11_addconnection_denote c p ps q n :
+  cs_wf c -> ps_wf ps ->
+  cs_denote (cs_addconn c p ps) q n = cs_denote c q n || (proto_eqb p q && imem n (ps_ports ps)).
+Proof. exact (cs_addconn_denote c p ps q n). Qed.
+Print Assumptions C11_addconnection_denote.
+
+Theorem C11_make_denote all p n : cs_denote (cs_make all) p n = valid_port n && all.
+Proof. exact (cs_make_denote all p n). Qed.
+Print Assumptions C11_make_denote.
+
+(* containment, equality, emptiness decide the denotation *)
+Theorem C11_containedin_sound c o :
+  cs_wf c -> cs_wf o -> cs_containedin c o = true ->
+  forall p n, cs_denote c p n = true -> cs_denote o p n = true.
+Proof. exact (cs_containedin_sound c o). Qed.
+Print Assumptions C11_containedin_sound.
+
+Theorem C11_containedin_complete c o :
+  cs_ninv c -> cs_ninv o ->
+  (forall p n, cs_denote c p n = true -> cs_denote o p n = true) -> cs_containedin c o = true.
+Proof. exact (cs_containedin_complete c o). Qed.
+Print Assumptions C11_containedin_complete.
+
+Theorem C11_equal_iff_denote c o :
+  cs_ninv c -> cs_ninv o ->
+  (cs_equal c o = true <-> forall p n, cs_denote c p n = cs_denote o p n).
+Proof. exact (cs_equal_iff_denote c o). Qed.
+Print Assumptions C11_equal_iff_denote.
+
+Theorem C11_isempty_iff c :
+  cs_ninv c -> (cs_isempty c = true <-> forall p n, cs_denote c p n = false).
+Proof. exact (cs_isempty_iff c). Qed.
+Print Assumptions C11_isempty_iff.
+
+(* canonical form: equal sets are identical values, hence print identically *)
+Theorem C11_canonical_unique c o :
+  cs_ninv c -> cs_ninv o -> (forall p n, cs_denote c p n = cs_denote o p n) -> c = o.
+Proof. exact (cs_ninv_ext c o). Qed.
+Print Assumptions C11_canonical_unique.
+
+Theorem C11_equal_sets_print_identically c o :
+  cs_ninv c -> cs_ninv o -> (forall p n, cs_denote c p n = cs_denote o p n) ->
+  cs_string c = cs_string o.
+Proof. exact (cs_string_eq_of_denote c o). Qed.
+Print Assumptions C11_equal_sets_print_identically.
+
+(* the full set is recognised as 'All Connections' *)
+Theorem C11_allowall_canonical c :
+  cs_ninv c -> ((forall p n, valid_port n = true -> cs_denote c p n = true) <-> cs_all c = true).
+Proof. exact (cs_allowall_canonical c). Qed.
+Print Assumptions C11_allowall_canonical.
+
+(* the invariant is established by the constructors and preserved by every operation:
+   by induction every set built from MakeConnectionSet by Union / Intersection / Subtract
+   (and by Union with a rule set built by AddConnection calls) is canonical *)
+Theorem C11_make_inv all : cs_ninv (cs_make all).
+Proof. exact (cs_make_ninv all). Qed.
+Print Assumptions C11_make_inv.
+
+Theorem C11_union_inv c o : cs_ninv c -> cs_ninv o -> cs_ninv (cs_union c o).
+Proof. exact (cs_union_ninv c o). Qed.
+Print Assumptions C11_union_inv.
+
+Theorem C11_intersection_inv c o : cs_ninv c -> cs_ninv o -> cs_ninv (cs_inter c o).
+Proof. exact (cs_inter_ninv c o). Qed.
+Print Assumptions C11_intersection_inv.
+
+Theorem C11_subtract_inv c o : cs_ninv c -> cs_ninv o -> cs_ninv (cs_subtract c o).
+Proof. exact (cs_subtract_ninv c o). Qed.
+Print Assumptions C11_subtract_inv.
+
+Theorem C11_addconnection_pre c p ps :
+  cs_pre c -> ps_wf ps -> ps_numeric ps -> cs_pre (cs_addconn c p ps).
+Proof. exact (cs_addconn_pre c p ps). Qed.
+Print Assumptions C11_addconnection_pre.
+
+Theorem C11_union_with_rule_set_inv c o : cs_ninv c -> cs_pre o -> cs_ninv (cs_union c o).
+Proof. exact (cs_union_pre_ninv c o). Qed.
+Print Assumptions C11_union_with_rule_set_inv.
+
+(* copying yields an equal value (aliasing is a runtime notion: checked on the Go side) *)
+Theorem C11_copy_eq c : cs_copy c = c.
+Proof. exact (cs_copy_eq c). Qed.
+Print Assumptions C11_copy_eq.
+
+(* the finding recorded for the unchanged code: Intersection with a receiver that carries a
+   stale protocol entry under AllowAll=true (reachable only through AddConnection on an
+   AllowAll set) does not denote the intersection *)
+Theorem C11_intersection_stale_refuted :
+  let c := mkCS true (Some (mkPS [(80, 80)] [] [])) None None in
+  let o := mkCS false None (Some (mkPS [(53, 53)] [] [])) None in
+  cs_wf c /\ cs_wf o /\
+  cs_denote (cs_inter c o) TCP 80 = true /\ cs_denote c TCP 80 && cs_denote o TCP 80 = false.
+Proof. exact cs_inter_denote_stale_refuted. Qed.
+Print Assumptions C11_intersection_stale_refuted.
